@@ -573,6 +573,7 @@ type Contracts struct {
 	FuncOrd []string
 	Lemmas  []*Lemma
 	GInvs   []*GlobalInv
+	Guards  []*Guard
 	DInvs   []*DataInv
 	Assumed []string // human-readable list of assumed/trusted items
 	Congs   []*Congruence
@@ -590,7 +591,7 @@ type Congruence struct {
 }
 
 var clauseKeywords = []string{"axiom", "assume", "congruence", "spec", "func", "extern", "requires", "ensures!", "ensures", "assigns", "loop", "lemma",
-	"use", "props", "inline", "trusted", "pure", "functional", "nosafety", "globalinv", "datainv", "reveal", "hint", "opt"}
+	"use", "props", "inline", "trusted", "pure", "functional", "nosafety", "globalinv", "datainv", "reveal", "hint", "opt", "guardedby", "threadlocal"}
 
 func startsClause(s string) (string, bool) {
 	for _, k := range clauseKeywords {
@@ -730,6 +731,20 @@ func (c *Contracts) ParseContractText(text, file, pkgPath string) error {
 				c.Specs[nm] = &SpecFunc{Name: nm, Params: []Param{{f[1], "*" + f[0]}}, Result: "bool", BodySrc: strings.TrimSpace(rest[k+2:]), Body: e, Pkg: pkgPath, Line: rc.line, File: file}
 				c.SpecOrd = append(c.SpecOrd, nm)
 			}
+			cur, curLemma = nil, nil
+		case "threadlocal":
+			// threadlocal Type: objects of this type that a query writes are owned by the querying thread
+			// (freshly allocated or taken from a pool); writes to their fields need no lock
+			c.Guards = append(c.Guards, &Guard{Pkg: pkgPath, Type: strings.TrimSpace(rest), Mode: "threadlocal", File: file, Line: rc.line})
+			cur, curLemma = nil, nil
+		case "guardedby":
+			// guardedby Type.Field Mutex mode
+			f := strings.Fields(rest)
+			if len(f) != 3 || !strings.Contains(f[0], ".") {
+				return errf("guardedby Type.Field Mutex rw|writeonce|map|calls")
+			}
+			k := strings.Index(f[0], ".")
+			c.Guards = append(c.Guards, &Guard{Pkg: pkgPath, Type: f[0][:k], Field: f[0][k+1:], Mutex: f[1], Mode: f[2], File: file, Line: rc.line})
 			cur, curLemma = nil, nil
 		case "globalinv":
 			// globalinv [label props] <global> :: expr
